@@ -216,7 +216,38 @@ def correspondence(pid, tier, seed, harness, work):
     plan = cfg[tier]
     cov = {"traces_validated_against_impl": 0, "ops_compared": 0, "ops_executed": 0, "profiles": [], "op_distribution": {}, "panic_distribution": {}, "samples": []}
     viol = []
-    if not plan:
+    # targeted scenarios first (corpus/<PID>[+<PID>…]-<what>.ops, written by bin/mkcorpus.py or minimised past failures)
+    cov["corpus_scenarios"] = []
+    for path in corpus_files(pid):
+        lines = [l.rstrip("\n") for l in open(path) if l.strip() and not l.startswith("#")]
+        bad, d = vlib.fails(pid, harness, lines, work, "corpus-" + os.path.basename(path)[:-4].replace("+", "_"))
+        cov["corpus_scenarios"].append(os.path.basename(path))
+        cov["traces_validated_against_impl"] += 1
+        cov["ops_executed"] += len(lines)
+        if bad:
+            # cut after the failing op, then shrink
+            cut = lines
+            if isinstance(d.get("index"), int):
+                cut = lines[: d["index"] + 1]
+            hard = not d.get("soft")
+            still, _ = vlib.fails(pid, harness, cut, work, "corpus-cut", need_hard=hard)
+            if not still:
+                cut = lines
+            small, tests = vlib.shrink(pid, harness, cut, work, budget=120, need_hard=hard)
+            _, d2 = vlib.fails(pid, harness, small, work, "corpus-final", need_hard=hard)
+            h = hashlib.sha256("\n".join(small).encode()).hexdigest()[:10]
+            rp = os.path.join(VERIF, "replays", "%s-%s.ops" % (pid, h))
+            with open(rp, "w") as f:
+                f.write("# property %s: the implementation's trace deviates from the verified model on the property's projection\n" % pid)
+                f.write("# targeted scenario %s, shrunk with %d re-executions; replay: bin/check %s quick --replay %s\n" % (os.path.basename(path), tests, pid, rp))
+                f.write("# failing op: %s\n" % d2.get("op"))
+                f.write("# expected (model, proved to satisfy the property): %s\n" % json.dumps(d2.get("model_proj")))
+                f.write("# actual   (implementation):                         %s\n" % json.dumps(d2.get("impl_proj")))
+                f.write("\n".join(small) + "\n")
+            viol.append((rp, "no-failing-input-found" if d2.get("soft") else ""))
+            break
+    if not plan or viol:
+        cov["evaluations"] = cov["ops_executed"]
         return {"coverage": cov, "violations": viol}
     jobs = []
     # split into chunks so that all cores are used
@@ -298,7 +329,12 @@ def special(pid, tier, seed, harness, work):
 
 
 def corpus_files(pid):
-    return sorted(glob.glob(os.path.join(VERIF, "corpus", "*.ops")))
+    """targeted scenarios for this property: corpus/<PID>[+<PID>…]-<what>.ops"""
+    res = []
+    for f in sorted(glob.glob(os.path.join(VERIF, "corpus", "C*.ops"))):
+        if pid in os.path.basename(f).split("-")[0].split("+"):
+            res.append(f)
+    return res
 
 
 # ---------------------------------------------------------------------------------------------
